@@ -177,6 +177,45 @@ theorem C05_pass_converges_partial (env env' : Env) (fuel : Nat) (s : St) (r : R
     (pinv_init hS hS' hL hset hG.1 hk hfile hdir hnotified) hlive (topo_nodup hk)
     (depsFirst_of_topo hG.1 hrank hk) hmiss hret hrewire
 
+/-- A pass keeps the dependency index exact (whatever the reloads do): so the conclusion of
+`C05_pass_converges_partial`, together with this, re-establishes `hset`, `hG`, `hlive` and the
+drained channel for the next pass. -/
+theorem C05_reloadAll_keeps_graphOK (env : Env) (fuel : Nat) :
+    ∀ (keys : List Key) (s : St) (r : RSt), GraphOK r.graph → GraphOK (reloadAll env fuel keys (s, r)).2.graph := by
+  intro keys
+  induction keys with
+  | nil => intro s r h; exact h
+  | cons k ks ih =>
+    intro s r h
+    simp only [reloadAll]
+    split
+    · exact h
+    · cases hg : r.graph.get (.asset k) with
+      | none => exact ih s r h
+      | some node =>
+        simp only []
+        split
+        · generalize reloadUntyped env fuel s k = y
+          obtain ⟨s1, o⟩ := y
+          cases o with
+          | died => exact h
+          | done d =>
+            cases d with
+            | none => exact ih s1 r h
+            | some p =>
+              obtain ⟨deps, b⟩ := p
+              cases b with
+              | false => exact ih s1 _ (C05_add_deps_keeps_inverse _ h _ _ (by rw [hg]; simp))
+              | true => exact ih s1 _ (C05_insert_keeps_inverse _ h _ _)
+        · exact ih s r h
+
+theorem C05_pass_keeps_graphOK (env : Env) (fuel : Nat) (s : St) (r : RSt) (h : GraphOK r.graph) :
+    GraphOK (runUpdate env fuel s r).2.graph := by
+  unfold runUpdate
+  split
+  · exact h
+  · exact C05_reloadAll_keeps_graphOK env fuel _ s _ h
+
 /-- **`hot_reload()` converges** (local mode, no pending `AddAsset` messages): the same statement for
 the whole request — drain the messages, run the pass, drain the messages the pass produced (none,
 under `hmiss`). The hypotheses are those of `C05_pass_converges_partial`. -/
